@@ -29,7 +29,7 @@ type Other struct {
 
 // entity types: 0 "user" (Ent), 1 "order" (Other), 2 "a/b" (Ent), 3 "ghost" (unregistered)
 var TypeNames = []string{"user", "order", "a/b", "ghost"}
-var Keys = []string{"1", "2", "a/b", "b/c", "ключ", "user/1"}
+var Keys = []string{"1", "2", "a/b", "b/c", "ключ", "user/1", "a/", "/a", "a//b", "./1", "..", "a/./b", "2/"}
 
 type Msg struct {
 	K    string `json:"k"` // insert update updateold delete deleteold reset snapstart snapend
